@@ -18,6 +18,7 @@ from engine.llsym import Module, Exec, State, is_sym
 HARNESS_DIRS = {'llharness': os.path.join(common.VERIF, 'llharness'), 'llharness_cg': os.path.join(common.VERIF, 'llharness_cg')}
 TOOLCHAIN = '1.88'
 BUF = 0x2000_0000
+EXPLORE_CAP_S = {'quick': 600, 'thorough': 4 * 3600}
 
 
 def target_dir(crate, dev):
@@ -118,13 +119,20 @@ def _worker(part):
                 res['unsupported'].append('%s: %s' % (kind, str(p.end[1])[:300]))
             return
         tj = time.time()
-        v = job.judge(ex, p, inputs)
+        try:
+            v = job.judge(ex, p, inputs)
+        except JudgeUnknown as e:
+            res['unsupported'].append('judge: %s' % e); res['judged_unknown'] = res.get('judged_unknown', 0) + 1
+            return
         res['solver_s'] += time.time() - tj
         res['judged_sat' if v is not None else 'judged_unsat'] = res.get('judged_sat' if v is not None else 'judged_unsat', 0) + 1
         if v is not None and len(res['violations']) < 400:
             res['violations'].append(v)
         if len(res['samples']) < 2:
-            res['samples'].append({'end': kind, 'path_condition_size': len(p.pc), 'example_input': example_input(ex, p, inputs)})
+            try:
+                res['samples'].append({'end': kind, 'path_condition_size': len(p.pc), 'example_input': example_input(ex, p, inputs)})
+            except JudgeUnknown:
+                pass
         if res['paths'] > job.max_paths or time.time() > deadline:
             raise KeyboardInterrupt('cap')
     try:
@@ -139,9 +147,16 @@ def _worker(part):
     return res
 
 
+class JudgeUnknown(Exception):
+    pass
+
+
 def model_of(ex, p, extra=()):
-    s = z3.Solver(); s.add(*p.pc); s.add(*extra)
-    if s.check() != z3.sat:
+    s = z3.Solver(); s.set('timeout', 120000); s.add(*p.pc); s.add(*extra)
+    r = s.check()
+    if r == z3.unknown:
+        raise JudgeUnknown('no verdict within 120 s')
+    if r != z3.sat:
         return None
     return s.model()
 
@@ -171,17 +186,27 @@ def explore(chk, mod, job, partitions, nproc=None):
     nproc = nproc or min(16, max(1, len(partitions)))
     t0 = time.time()
     if nproc == 1 or len(partitions) == 1:
-        results = [_worker(p) for p in partitions]
+        results = in_child(lambda: [_worker(p) for p in partitions], timeout=job.time_cap_s + 600)
     else:
         ctx = mp.get_context('fork')
+        cap = EXPLORE_CAP_S.get(chk.tier, 900)
+        results = []
         with ctx.Pool(nproc) as pool:
-            results = list(pool.imap_unordered(_worker, partitions))
+            it = pool.imap_unordered(_worker, partitions)
+            deadline = time.time() + cap
+            for _ in range(len(partitions)):
+                try:
+                    results.append(it.next(timeout=max(1.0, deadline - time.time())))
+                except mp.TimeoutError:
+                    pool.terminate()
+                    chk.inconclusive_note('%s: exploration exceeded the %d s cap of the %s tier (%d of %d partitions done)' % (job.entry, cap, chk.tier, len(results), len(partitions)))
+                    break
     tot = {'paths': 0, 'steps': 0, 'kinds': collections.Counter(), 'violations': [], 'unsupported': [], 'samples': [], 'queries': 0}
     for r in results:
         tot['paths'] += r['paths']; tot['steps'] += r['steps']; tot['queries'] += r['queries']
         tot['kinds'].update(r['kinds']); tot['violations'] += r['violations']; tot['unsupported'] += r['unsupported']
         tot['samples'] += r['samples'][:1]
-        chk.queries['unsat'] += r.get('judged_unsat', 0); chk.queries['sat'] += r.get('judged_sat', 0)
+        chk.queries['unsat'] += r.get('judged_unsat', 0); chk.queries['sat'] += r.get('judged_sat', 0); chk.queries['unknown'] += r.get('judged_unknown', 0)
         chk.funcs_encoded.update(demangle_short(n) for n in r.get('called', []))
         chk.solver_s += r.get('solver_s', 0.0)
     tot['wall'] = time.time() - t0
@@ -272,8 +297,41 @@ for spec in specs["calls"]:
     return outs + [None] * (len(arglists) - len(outs))
 
 
+def in_child(fn, timeout=900):
+    """runs fn() in a forked child and returns its result. The parent process never touches z3 before it forks the
+    exploration workers: z3 keeps helper threads (timers) that do not survive a fork and make children deadlock."""
+    ctx = mp.get_context('fork')
+    rd, wr = ctx.Pipe(duplex=False)
+
+    def target():
+        try:
+            wr.send(('ok', fn()))
+        except Inconclusive as e:
+            wr.send(('inconclusive', str(e)))
+        except BaseException as e:       # noqa
+            import traceback
+            wr.send(('error', traceback.format_exc()[-1500:]))
+    p = ctx.Process(target=target)
+    p.start()
+    if rd.poll(timeout):
+        kind, val = rd.recv()
+    else:
+        kind, val = 'inconclusive', 'child did not answer within %d s' % timeout
+        p.kill()
+    p.join(10)
+    if kind == 'ok':
+        return val
+    raise Inconclusive(val if kind == 'inconclusive' else 'internal error in a child process: ' + val)
+
+
 def selftest(chk, mod, so, entry, make_concrete, native_args, cases, ret='c_uint64', ret_bits=64):
     """differential validation of the executor: the same concrete inputs natively and in llsym must agree"""
+    ok = in_child(lambda: _selftest(mod, so, entry, make_concrete, native_args, cases, ret, ret_bits))
+    chk.cov['traces_validated_against_impl'] = chk.cov.get('traces_validated_against_impl', 0) + ok
+    return ok
+
+
+def _selftest(mod, so, entry, make_concrete, native_args, cases, ret, ret_bits):
     nat = native_batch(so, entry, [native_args(c) for c in cases], ret=ret)
     ok = 0
     for c, n in zip(cases, nat):
@@ -300,7 +358,6 @@ def selftest(chk, mod, so, entry, make_concrete, native_args, cases, ret='c_uint
             if d.end[0] == 'unsupported':
                 raise Inconclusive('self-test: %s' % (d.end[1],))
         ok += 1
-    chk.cov['traces_validated_against_impl'] = chk.cov.get('traces_validated_against_impl', 0) + ok
     return ok
 
 
